@@ -17,6 +17,7 @@ import (
 	"regexp"
 	"runtime/debug"
 	"sort"
+	"strconv"
 	"strings"
 	"testing/fstest"
 
@@ -38,6 +39,9 @@ import (
 func orcGen(seed int64, tier string, emit func(run.Case)) {
 	r := gen.New(seed)
 	n := tierN(tier, 600, 30000)
+	if v, err := strconv.Atoi(os.Getenv("ORC_N")); err == nil && v > 0 {
+		n = v // triage aid only: a prefix of the same case list
+	}
 	for i := 0; i < n; i++ {
 		q := r.Sub(i)
 		c := gen.Edits(q, 20)
@@ -61,6 +65,16 @@ type orcObj struct {
 	SQL     any
 	NearRaw string
 	Shape   string
+	// LabelKW: the label comes from an explicit `label` keyword (x.label: v / {label: v})
+	// rather than from the primary value of a declaration.
+	LabelKW bool
+	// How the source text refers to the object (trigger predicates for signatures):
+	// RefChain: endpoint of a connection chain; RefMid: inner segment of a dotted key
+	// (a.THIS.c); RefMulti: declared by more than one non-connection statement;
+	// RefEdgeOnly: exists only as a connection endpoint.
+	RefChain, RefMid, RefMulti, RefEdgeOnly, RefDotted bool
+	// Foreign: at least one reference lives in another file (imported object).
+	Foreign bool
 }
 
 type orcEdge struct {
@@ -71,6 +85,7 @@ type orcEdge struct {
 	Index              int
 	Attrs              map[string]any
 	SrcHead, DstHead   map[string]any
+	LabelKW            bool
 }
 
 type orcSnap struct {
@@ -126,7 +141,37 @@ func orcSnapOf(g *d2graph.Graph) *orcSnap {
 		if sh, _ := po.Attrs["shape"].(map[string]any); sh != nil {
 			oo.Shape, _ = sh["value"].(string)
 		}
+		oo.LabelKW = orcLabelViaKeyword(o.Label.MapKey)
+		nKey := 0
+		for _, ref := range o.References {
+			if ref.Key != nil && ref.Key.Range.Path != "index.d2" {
+				oo.Foreign = true
+			}
+			if ref.MapKey == nil {
+				continue
+			}
+			if ref.InEdge() {
+				if len(ref.MapKey.Edges) > 1 {
+					oo.RefChain = true
+				}
+			} else if len(ref.MapKey.Edges) == 0 {
+				nKey++
+			}
+			if ref.Key != nil && ref.KeyPathIndex > 0 && !ref.InEdge() {
+				oo.RefDotted = true
+			}
+			if ref.Key != nil && ref.KeyPathIndex < len(ref.Key.Path)-1 {
+				if _, res := d2ast.ReservedKeywords[ref.Key.Path[ref.KeyPathIndex+1].Unbox().ScalarString()]; !res {
+					oo.RefMid = true
+				}
+			}
+		}
+		oo.RefMulti = nKey > 1
+		oo.RefEdgeOnly = nKey == 0
 		oo.Tag = orcTagOf(po.Attrs)
+		if lv, _ := orcScalar(po.Attrs, "label"); lv == po.IDVal {
+			oo.Tag = "" // a label that merely defaults to the ID is not a tag
+		}
 		if oo.Tag != "" {
 			tagCount[oo.Tag]++
 		}
@@ -160,6 +205,7 @@ func orcSnapOf(g *d2graph.Graph) *orcSnap {
 		if di, ok := idx[e.Dst]; ok {
 			ee.Dst = di
 		}
+		ee.LabelKW = orcLabelViaKeyword(e.Label.MapKey)
 		ee.Tag = orcTagOf(pe.Attrs)
 		if ee.Tag != "" {
 			tagCount[ee.Tag]++
@@ -185,6 +231,35 @@ func orcSnapOf(g *d2graph.Graph) *orcSnap {
 		}
 	}
 	return s
+}
+
+func orcLabelViaKeyword(mk *d2ast.Key) bool {
+	if mk == nil {
+		return false
+	}
+	last := func(kp *d2ast.KeyPath) string {
+		if kp == nil || len(kp.Path) == 0 {
+			return ""
+		}
+		return kp.Path[len(kp.Path)-1].Unbox().ScalarString()
+	}
+	if mk.EdgeKey != nil {
+		return last(mk.EdgeKey) == "label"
+	}
+	return len(mk.Edges) == 0 && last(mk.Key) == "label"
+}
+
+// underSpecial: is the path at or below an object whose children are fields, not objects
+// (class, sql_table)?
+func (s *orcSnap) underSpecial(path []string) bool {
+	for i := 1; i <= len(path); i++ {
+		if j, ok := s.byPath[orcPathKey(path[:i])]; ok {
+			if sh := strings.ToLower(s.Objs[j].Shape); sh == "class" || sh == "sql_table" {
+				return true
+			}
+		}
+	}
+	return false
 }
 
 // ref names an object independently of its ID where possible.
@@ -400,6 +475,15 @@ func (st *orcState) boardIndex(key string) int {
 	return -1
 }
 
+// hollow: a scenario/step declared without a map (`s1` instead of `s1: {…}`) compiles to an
+// empty board that does not inherit yet; the first edit gives it a map and with it the
+// whole inherited content. That is language behaviour (C15), not an effect of the edit, so
+// the element-level monitors do not judge edits addressed to such a board.
+func (st *orcState) hollow(i int) bool {
+	b := st.Boards[i]
+	return b.Base >= 0 && len(b.G.Objects) == 0 && len(st.Boards[b.Base].G.Objects) > 0
+}
+
 // inherits: does board x inherit (transitively) from board b?
 func (st *orcState) inherits(x, b int) bool {
 	for p := st.Boards[x].Base; p >= 0; p = st.Boards[p].Base {
@@ -551,7 +635,7 @@ func orcResolve(op gen.EditOp, st *orcState) (orcCall, bool) {
 				c.Key = []string{"layers", "scenarios", "steps"}[(op.Var>>8)%3] + "." + fmt.Sprintf("nb%d", op.Sel[0]%50)
 				c.Variant = "board"
 			} else {
-				c.Key, c.Variant = name+".q."+gen.EditKey(op.Str[1]), "fresh-deep"
+				c.Key, c.Variant = name+".q.z"+strings.ToLower(op.Str[1]), "fresh-deep"
 			}
 		}
 	case "set":
@@ -785,7 +869,7 @@ func orcResolve(op gen.EditOp, st *orcState) (orcCall, bool) {
 		case 5:
 			c.NewName, c.Variant = strings.ToUpper(o.IDVal), "case-variant"
 		case 6:
-			c.NewName, c.Variant = "n"+op.Str[1], "fresh-plain"
+			c.NewName, c.Variant = "n"+strings.ToLower(op.Str[1]), "fresh-plain"
 		default:
 			c.NewName, c.Variant = []string{"label", "style", "shape", "near", "layers"}[op.Sel[1]%5], "reserved"
 		}
@@ -802,7 +886,30 @@ func orcResolve(op gen.EditOp, st *orcState) (orcCall, bool) {
 		switch v {
 		case 0, 1, 2, 3:
 			t := obj(op.Sel[1])
-			c.NewKey, c.Variant = t.AbsID()+"."+o.ID, "into-container"
+			inSub := func(x *d2graph.Object) bool {
+				for p := x; p != nil; p = p.Parent {
+					if p == o {
+						return true
+					}
+				}
+				return false
+			}
+			c.Variant = "into-container"
+			if inSub(t) {
+				// destination inside the moved subtree: kept rare (see "into-itself")
+				if sub%8 == 0 {
+					c.Variant = "into-own-subtree"
+				} else {
+					for k := 1; k < len(objs) && inSub(t); k++ {
+						t = obj(op.Sel[1] + k)
+					}
+					if inSub(t) {
+						c.NewKey, c.Variant = o.ID, "to-root"
+						break
+					}
+				}
+			}
+			c.NewKey = t.AbsID() + "." + o.ID
 		case 4, 5:
 			c.NewKey, c.Variant = o.ID, "to-root"
 		case 6:
@@ -1104,6 +1211,10 @@ func orcApply(c orcCall, st *orcState) (out orcApplied) {
 
 // orcRun executes one history. It returns the number of successful edits.
 func orcRun(in gen.EditCase, res *run.Result, h orcHooks) {
+	// Runaway recursion (e.g. an object made its own parent) must die fast and with a
+	// stack that still names the d2 frame: the default 1 GB limit takes ~30 CPU-s to reach.
+	// 64 MB is >100x what compiling and editing these small programs needs.
+	debug.SetMaxStack(64 << 20)
 	fs := orcFS(in.Files)
 	text := in.Files["index.d2"]
 	// Histories start from formatted source, like a file an editor has saved before: the
@@ -1288,6 +1399,38 @@ func orcRun(in gen.EditCase, res *run.Result, h orcHooks) {
 	res.Nontrivial = okOps >= 2
 	sort.Strings(kinds)
 	res.Sample = map[string]any{"ops": len(in.Ops), "successful": okOps, "boards": len(st.Boards), "final_text": trunc(st.Text, 300)}
+}
+
+// orcDecl names how the source declares an object — the coarse trigger class used in
+// signatures (most specific first).
+func (s *orcSnap) decl(i int) string {
+	if i < 0 {
+		return "none"
+	}
+	o := s.Objs[i]
+	switch {
+	case o.Foreign:
+		return "imported"
+	case o.RefChain:
+		return "in-chain"
+	case o.RefMid:
+		return "inner-segment-of-dotted-key"
+	case o.RefDotted:
+		return "leaf-of-dotted-key"
+	case o.RefMulti:
+		return "declared-more-than-once"
+	case o.RefEdgeOnly:
+		return "connection-endpoint-only"
+	}
+	return "simple"
+}
+
+// orcWhere: root or nested board.
+func orcWhere(s *orcStep) string {
+	if len(s.Call.Board) > 0 {
+		return "nested-board"
+	}
+	return "root-board"
 }
 
 // orcTrig classifies the situation of a step for violation signatures (stable, coarse).
